@@ -73,6 +73,7 @@ class PathResult:
 class Engine:
     def __init__(self, timeout_ms=10000, max_depth=400, max_paths=20000, nonlinear="nra", logic=None,
                  max_task_s=None, max_violations=12):
+        self.dump_dir, self.dump_limit, self.dumped = None, 0, 0
         self.deadline = (time.time() + max_task_s) if max_task_s else None
         self.max_violations = max_violations
         self.timeout_ms = timeout_ms
@@ -263,6 +264,8 @@ class Engine:
             self.obligations.append(Obligation(name, "proved", self._path_index, info=info))
             return "proved"
         r, model = self._check(z3.Not(claim))
+        if self.dump_dir and self.dumped < self.dump_limit and r in ("sat", "unsat"):
+            self._dump(name, claim, r)
         if r == "unsat":
             self.obligations.append(Obligation(name, "proved", self._path_index, info=info))
             return "proved"
@@ -341,6 +344,21 @@ class Engine:
         model["__choices__"] = list(self.choices)
         self.obligations.append(Obligation(name, "violated", self._path_index, model=model, info=info))
         return "violated"
+
+    def _dump(self, name, claim, verdict):
+        """Export assumptions ∧ path ∧ ¬claim as SMT-LIB2 for the cross-solver diff (z3 verdict in the first line)."""
+        import os
+        s = z3.Solver()
+        for a in self.solver.assertions():
+            s.add(a)
+        s.add(z3.Not(claim))
+        text = s.to_smt2()
+        if "fp." in text or "FloatingPoint" in text or "BitVec" in text:
+            return
+        self.dumped += 1
+        fn = os.path.join(self.dump_dir, f"ob_{os.getpid()}_{self.dumped}.smt2")
+        with open(fn, "w") as f:
+            f.write(f"; z3={verdict} obligation={name}\n(set-logic ALL)\n" + text)
 
     def witness(self):
         """Reachability witness for the current path: assumptions ∧ pc satisfiable?"""
